@@ -252,6 +252,22 @@ def register(M, h):
             raise AnalysisError('pd.Timestamp(str): the scenario gives no meaning to this date string', node)
         raise AbsRaise(ExcVal('TypeError', (f'Cannot convert input [{v!r}] to Timestamp',)), node)
 
+    @ext('datetime.datetime.strptime')
+    def _strptime(interp, args, kw, node):
+        import datetime as _dt
+        if not all(isinstance(a, str) for a in args[:2]):
+            raise AnalysisError('strptime of non-constant strings', node)
+        try:
+            d = _dt.datetime.strptime(args[0], args[1])
+        except ValueError as e:
+            raise AbsRaise(ExcVal('ValueError', (str(e),)), node)
+        return TS(int((d - _dt.datetime(1970, 1, 1)).total_seconds()))
+
+    @ext('datetime.datetime.now', 'datetime.datetime.utcnow', 'datetime.datetime.today', 'time.time')
+    def _dtnow(interp, args, kw, node):
+        interp.event('clock-read', node=node)
+        return TS(0, now=True)
+
     @ext('pandas.Timestamp.now', 'pandas.Timestamp.utcnow', 'pandas.Timestamp.today')
     def _now(interp, args, kw, node):
         interp.event('clock-read', node=node)
